@@ -92,7 +92,7 @@ def check_output(ctx, r, out, wit, at0_allowed=True, content_ws=False):
         return True
     # (iii) every layout run touches a tag token of a ws-enabled element
     try:
-        toks = tokenizer.tokenize(out)
+        toks = tokenizer.tokenize(out, rawtext=())  # content is markup-free, so script/style need no raw-text mode here
     except tokenizer.Forged as f:
         ctx.violation("untokenizable", str(f), wit)
         return False
@@ -114,7 +114,7 @@ def check_output(ctx, r, out, wit, at0_allowed=True, content_ws=False):
         elif t[0] == "close":
             flag[ti] = stack.pop()
     for ti, t in enumerate(toks):
-        if t[0] != "text":
+        if t[0] not in ("text", "raw"):
             continue
         s = t[1]
         # split into runs
